@@ -342,6 +342,14 @@ class MReporter(object):
             })
         return rep_method
 
+    def cleanup_error(self, exception):
+        """forward a teardown error (its argument is not a task)"""
+        self.runner.result_q.put({
+            'name': None,
+            'reporter': 'cleanup_error',
+            'cleanup_error': exception,
+        })
+
     def complete_run(self):
         """ignore this on MReporter"""
         pass
@@ -500,6 +508,9 @@ class MRunner(Runner):
 
                 if 'exit' in result:
                     raise result['exit'](result['exception'])
+                if 'cleanup_error' in result:
+                    self.reporter.cleanup_error(result['cleanup_error'])
+                    continue
                 node = task_dispatcher.nodes[result['name']]
                 task = node.task
                 if 'reporter' in result:
@@ -535,6 +546,9 @@ class MRunner(Runner):
         while not result_q.empty():  # safe because subprocess joined
             result = result_q.get()
             assert 'reporter' in result
+            if 'cleanup_error' in result:
+                self.reporter.cleanup_error(result['cleanup_error'])
+                continue
             task = task_dispatcher.tasks[result['name']]
             getattr(self.reporter, result['reporter'])(task)
 
